@@ -219,3 +219,15 @@ pub fn progress(line: &str) {
         let _ = f.flush();
     }
 }
+
+/// Keeps the image that is about to be opened in one fixed scratch file beside the progress log and
+/// logs the operation, so that a process-killing failure (allocation abort) leaves the failing input behind.
+pub fn progress_image(tag: &str, bytes: &[u8]) {
+    let path = std::env::var("VERIF_PROGRESS").unwrap_or_default();
+    if path.is_empty() {
+        return;
+    }
+    let img = format!("{}.img", path);
+    let _ = std::fs::write(&img, bytes);
+    progress(&format!("new {} {}", tag, img));
+}
